@@ -193,6 +193,10 @@ def run_once(cfg, cands, ballots, names=None, cand_order=None, keep_obj=False, o
                 if cfg["rule"] == "TopTwo" and s.round_number == 2 and s.tiebreaks:
                     p = None   # returned by a replay that re-draws the runoff tiebreak: not the profile of this round
                 events.append(state_json(s, p, t if cfg["rule"] in ("STV", "IRV", "SequentialRCV") else -1, inv=inv))
+    if main is not None:
+        # the round number the *election object* stores for each of its states (Alaska renumbers the states of its STV stage)
+        for k, ev in enumerate(events):
+            ev["rn"] = int(main.election_states[k + 1].round_number) if k + 1 < len(main.election_states) else -1
     vorder0 = []
     if main is not None and id(main) in _VORDER:
         orders = [[[sorted(inv[c] for c in pos) for pos in r] for r in o] for o in _VORDER[id(main)]]
@@ -220,12 +224,13 @@ def _abstract_bag(ballots):
 
 def _empty_round():
     return {"ev": "Round", "elected": [], "eliminated": [], "remaining": [], "scores": [], "tiebreaks": [], "bag": [],
-            "bagknown": True, "thr": -1, "p": [0, 0], "vorder": []}
+            "bagknown": True, "thr": -1, "p": [0, 0], "vorder": [], "rn": -1}
 
 
 def _evkey(ev):
     e = dict(ev)
     e.pop("p", None)
+    e.pop("rn", None)        # a stored attribute of the state object, not part of what happened in the round
     return json.dumps(e, sort_keys=True)
 
 
